@@ -64,6 +64,10 @@ def base_terms(kind, n, pool, r):
             # every mention is a NEW Variable object with the same name (a helper `def var(i): return Variable(f"v{i}")`)
             from optyx import Variable as _V
             out.append(_V(v.name) ** 2 - 2 * _V(v.name))
+        elif kind == "varpow":
+            # a power whose EXPONENT is an expression in the variables (general a**b rule), base kept positive
+            v2 = vs[(i + 1) % len(vs)]
+            out.append(r.choice([1, 2, 0.5]) * (v + 2) ** (v2 * 0.25 + 1))
         elif kind == "expvar":
             # a variable that occurs ONLY in exponents (2**(z - a) + 2**(a - z) style), another one only as a base
             from optyx import Variable as _V
@@ -116,7 +120,7 @@ def run(rep: vk.Report):
             n = rng.choice(shallow_sizes)
             plan.append((kind, op, n, rng.choice(["left", "balanced"])))
     # term kinds that exercise each rule of the degree analysis and the call-time reading of parameters, right at the switch depth
-    for kind in ["param", "divc", "negpow", "fracpow", "pow01", "cdiv", "cexpr", "clones", "distinct", "expvar"]:
+    for kind in ["param", "divc", "negpow", "fracpow", "pow01", "cdiv", "cexpr", "clones", "distinct", "expvar", "varpow"]:
         for op, n in ([("+", 401), ("-", 400)] if quick else [("+", 399), ("+", 400), ("+", 401), ("-", 400), ("-", 900), ("*", 401)]):
             plan.append((kind, op, n, "left" if op != "+" or quick else rng.choice(["left", "balanced"])))
     for kind in (["lin", "vec", "fn:atan", "fn:log2"] if quick else ["lin", "var", "sq", "vec", "fn:sin", "fn:atan", "fn:log2"]):
